@@ -46,7 +46,13 @@ try:
     pkgs = sorted({'./' + os.path.dirname(f) + '/' for f in files if f.endswith('.go')})
     res['touched'] = pkgs
     tested = {}
+    stable = {t.split('::')[0].replace('github.com/tikv/pd', '.') + '/' for t in json.load(open('/root/.vp/BASELINE.json'))['stable_pass']}
+    if any(p.startswith('./server/') for p in pkgs) and './server/' not in pkgs:
+        pkgs.append('./server/')
     for p in pkgs:
+        if p not in stable:
+            tested[p] = 'not in the 47-test baseline (skipped)'
+            continue
         rc, o = sh(f'go test -vet=off -count=1 -timeout 20m {p}', wt)
         if p.rstrip('/') in ('./server/api', './server/schedule') and rc != 0:
             tested[p] = 'baseline-failing suite (ignored)'
